@@ -10,7 +10,7 @@ use crate::props::gc::GcEngine;
 use crate::props::multi::MultiEngine;
 use crate::props::prefixes::PrefixEngine;
 use crate::props::script::ScriptEngine;
-use crate::props::trees::TreeEngine;
+use crate::props::trees::{TreeEngine, TreeEnumEngine};
 use crate::props::twin::{TwinEngine, TwinKind};
 use crate::props::hexlab::{ConcatEngine, HexEngine, LabelEngine, LabelEnumEngine};
 use serde_json::Value;
@@ -106,9 +106,9 @@ pub fn meta(prop: &str) -> Option<Meta> {
         },
         "C11" => Meta {
             level: "exploration",
-            rule: "pairs of trees built through the API: g = tree of 1..8 vertices over generated ids (edges bound in a generated order so that the tree may span several groups; data placed before or after binding, lengths across 8, some already read), optionally after junk groups were created and completely collected (so that merge's next_id() lands on recycled slots); h = tree of 1..8 vertices with labels from a 4-label pool (paths overlap often), data on a generated subset; `left` any vertex of g; half of the cases merge the same h a second time. Oracle: Ok, no panic; h's complete observation unchanged; the result is explained as a graft (every h path exists from left, distinct h vertices on distinct g vertices, exactly the vertices of the lacking paths are created under ids that were absent); after the merge g equals the reference model that performed the equivalent add/bind/put calls (every vertex's kids, data marker) and keeps equalling it through the drain epilogue (data bytes of every read, every collection). Cases whose result would exceed N labels/limits are skipped and counted. Non-trivial: |h|>=3, >=1 shared path, >=1 new vertex, >=1 datum in h, >=1 group collected afterwards.",
+            rule: "pairs of trees built through the API: g = tree of 1..8 vertices over generated ids (edges bound in a generated order so that the tree may span several groups; data placed before or after binding, lengths across 8, some already read), optionally after junk groups were created and completely collected (so that merge's next_id() lands on recycled slots); h = tree of 1..8 vertices with labels from a 4-label pool (paths overlap often), data on a generated subset; `left` any vertex of g; half of the cases merge the same h a second time. Oracle: Ok, no panic; h's complete observation unchanged; the result is explained as a graft (every h path exists from left, distinct h vertices on distinct g vertices, exactly the vertices of the lacking paths are created under ids that were absent); after the merge g equals the reference model that performed the equivalent add/bind/put calls (every vertex's kids, data marker) and keeps equalling it through the drain epilogue (data bytes of every read, every collection). Cases whose result would exceed N labels/limits are skipped and counted. Sub-campaign treegen-enum (bounded-exhaustive): EVERY pair of rooted trees with at most 3 (quick) / 4 (thorough) vertices over the labels {α0, foo}, every data placement on both sides (short and 9-byte data), every choice of `left`, same oracle and epilogue. Non-trivial: |h|>=3, >=1 shared path, >=1 new vertex, >=1 datum in h, >=1 group collected afterwards.",
             assumptions: &["reference model + path-wise graft (harness/src/interp.rs graft())", "trees up to 8 vertices, 4 labels, N in 1..=16"],
-            subs: vec![Sub { id: "treegen", quick: 64_000, thorough: 3_200_000 }],
+            subs: vec![Sub { id: "treegen", quick: 64_000, thorough: 3_200_000 }, Sub { id: "treegen-enum", quick: 1, thorough: 1 }],
         },
         "C12" => Meta {
             level: "exploration",
@@ -199,6 +199,12 @@ pub fn run_sub(
         ("C09", "prefixes") => campaign(&PrefixEngine { all_prefixes: tier == Tier::Thorough }, tier, seed, cases, known, inflight, 100),
         ("C10", "twin") => campaign(&TwinEngine { kind: TwinKind::Clone }, tier, seed, cases, known, inflight, max_shrink),
         ("C19", "multi-config") => campaign(&MultiEngine, tier, seed, cases, known, inflight, 600),
+        ("C11", "treegen-enum") => {
+            let e = TreeEnumEngine { max: if tier == Tier::Quick { 3 } else { 4 } };
+            let mut r = campaign(&e, tier, seed, cases, known, inflight, 0);
+            r.exhaustive = r.found.is_empty();
+            r
+        }
         ("C11", "treegen") => campaign(&TreeEngine { extras: false }, tier, seed, cases, known, inflight, 1500),
         ("C12", "treegen") => campaign(&TreeEngine { extras: true }, tier, seed, cases, known, inflight, 1500),
         ("C13" | "C18" | "C20", "digraph") => campaign(&DiEngine { prop: leak(prop) }, tier, seed, cases, known, inflight, 1200),
@@ -230,7 +236,7 @@ pub fn replay(prop: &str, engine: &str, payload: &Value) -> Result<Option<Failur
         ("C09", "prefixes") => Ok(PrefixEngine { all_prefixes: true }.replay(payload)),
         ("C10", "twin") => Ok(TwinEngine { kind: TwinKind::Clone }.replay(payload)),
         ("C19", "multi-config") => Ok(MultiEngine.replay(payload)),
-        ("C11", "treegen") => Ok(TreeEngine { extras: false }.replay(payload)),
+        ("C11", "treegen" | "treegen-enum") => Ok(TreeEngine { extras: false }.replay(payload)),
         ("C12", "treegen") => Ok(TreeEngine { extras: true }.replay(payload)),
         ("C13" | "C18" | "C20", "digraph") => Ok(DiEngine { prop: leak(prop) }.replay(payload)),
         ("C14", "scriptgen") => Ok(ScriptEngine.replay(payload)),
